@@ -133,6 +133,49 @@ class Monitor:
                                  "outputs": [v for v, _k in rtx.outputs]})
         return rtx
 
+    def while_another_thread_hands_out_a_key(self, wmod, wallet, rng):
+        """the wallet object is shared with the miner watcher thread, which hands out (and on shutdown gives back) keys: this
+        request is served while that happens -- the requesting thread is held at one source location of the wallet module, the
+        other thread's hand-out completes, the request goes on.  Returns a stand-in for the wallet module whose
+        create_spend_transaction does that; the call is judged exactly like every other call"""
+        import copy
+        pre = self.pre
+
+        class Shim:
+            pass
+        shim = Shim()
+        mon = self
+
+        def create_spend_transaction(w_, cs, amount, fee, recipient, change):
+            pre.resume()
+            try:
+                return held(w_, cs, amount, fee, recipient, change)
+            finally:
+                pre.pause()
+
+        def held(w_, cs, amount, fee, recipient, change):
+            probe = copy.deepcopy(w_)
+            total = pre.count(lambda: wmod.create_spend_transaction(probe, cs, amount, fee, recipient, change))
+            ks = pre.points_by_location(rng, 1)
+            if not ks:
+                return wmod.create_spend_transaction(w_, cs, amount, fee, recipient, change)
+
+            def other():
+                key = w_.get_annotated_public_key("reserved for potentially mined block")
+                if rng.random() < 0.3:
+                    w_.restore_annotated_public_key(key, "reserved for potentially mined block")
+                return key
+            a, b, ran = pre.run(lambda: wmod.create_spend_transaction(w_, cs, amount, fee, recipient, change), other, ks[0])
+            if ran:
+                mon.c["calls_while_another_thread_hands_out_a_key"] = mon.c.get("calls_while_another_thread_hands_out_a_key", 0) + 1
+                mon.c["two_thread_locations_seen"] = len(pre.loc_uses)
+            from skv import preempt
+            if isinstance(a, preempt.Raised):
+                raise a.e
+            return a
+        shim.create_spend_transaction = create_spend_transaction
+        return shim
+
     def run_sequence(self, rng, idx):
         import skepticoin.wallet as wmod
         import skepticoin.consensus as cons
@@ -148,7 +191,7 @@ class Monitor:
         history = {"n": 0, "failed_before": False, "marked_by_failure": False, "spent_by_returned": set()}
         pending = []
         w = {"blocks": gen.blocks_hex(world, world.chain.order[1:]), "wallet_keys": [pk.hex() for pk in wallet.keypairs],
-             "calls": []}
+             "wallet_unused": [pk.hex() for pk in wallet.unused_public_keys], "calls": []}
         led0 = world.ledger(world.cs.current_chain_hash)
         if any(k not in wallet.keypairs for _v, k in led0.values()):
             c["wallets_with_foreign_outputs_in_ledger"] += 1
@@ -181,7 +224,11 @@ class Monitor:
             recipient = rng.choice(foreign)
             change_key = rng.choice(list(wallet.keypairs))
             w["calls"].append([amount, fee, recipient.hex(), change_key.hex()])
-            rtx = self.call(wmod, cons, wallet, world, amount, fee, recipient, change_key, history, w)
+            threaded = getattr(self, "pre", None) is not None and rng.random() < 0.3
+            if threaded:
+                w["calls"][-1].append("other-thread-hands-out-a-key")
+            rtx = self.call(self.while_another_thread_hands_out_a_key(wmod, wallet, rng) if threaded else wmod, cons, wallet, world,
+                            amount, fee, recipient, change_key, history, w)
             if rtx is not None:
                 pending.append(rtx)
             if rng.random() < 0.15:
@@ -300,8 +347,14 @@ def replay(mon, w):
         rb = ref.parse_block(bytes.fromhex(hx))
         world.accept(rb, bridge.rblock_to_real(rb), validate=False)
     keys = [bytes.fromhex(x) for x in w["wallet_keys"]]
-    wallet = wmod.Wallet({pk: world.sk_by_pk[pk] for pk in keys}, [], {pk: "a" for pk in keys})
+    unused = [bytes.fromhex(x) for x in w.get("wallet_unused", [])]
+    wallet = wmod.Wallet({pk: world.sk_by_pk[pk] for pk in keys}, list(unused), {pk: "a" for pk in keys if pk not in unused})
     history = {"n": 0, "failed_before": False, "marked_by_failure": False, "spent_by_returned": set()}
+    if any(len(c_) > 4 for c_ in w["calls"]):
+        import skepticoin.balances as bal
+        from skv import preempt
+        mon.pre = preempt.Preempter([wmod, bal])
+        mon.pre.pause()
     for call in w["calls"]:
         if call[0] == "reopen":
             import io
@@ -312,8 +365,16 @@ def replay(mon, w):
             history["record"] = set()
             history["spent_by_returned"] = set()
             continue
-        (amount, fee, rec, chg) = call
+        (amount, fee, rec, chg) = call[:4]
+        if len(call) > 4 and getattr(mon, "pre", None) is not None and mon.pre.ok:
+            import copy
+            for _try in range(60):      # (each try holds the request at another source location)
+                w2, h2 = copy.deepcopy(wallet), copy.deepcopy(history)
+                mon.call(mon.while_another_thread_hands_out_a_key(wmod, w2, rng), cons, w2, world, amount, fee, bytes.fromhex(rec),
+                         bytes.fromhex(chg), h2, w)
         mon.call(wmod, cons, wallet, world, amount, fee, bytes.fromhex(rec), bytes.fromhex(chg), history, w)
+    if getattr(mon, "pre", None) is not None:
+        mon.pre.close()
 
 
 def run_shard(spec):
@@ -323,8 +384,21 @@ def run_shard(spec):
         replay(mon, spec["replay"])
     else:
         rng = random.Random("c14/%d/%d" % (spec["seed"], spec["shard"]))
-        for j in range(30 if spec["tier"] == "quick" else 800):
-            mon.run_sequence(rng, j)
+        import skepticoin.wallet as wmod_
+        import skepticoin.balances as bal_
+        from skv import preempt
+        mon.pre = preempt.Preempter([wmod_, bal_])
+        if not mon.pre.ok:
+            mon.pre = None
+        else:
+            mon.pre.pause()
+        try:
+            for j in range(30 if spec["tier"] == "quick" else 800):
+                mon.run_sequence(rng, j)
+        finally:
+            if mon.pre is not None:
+                mon.pre.close()
+                mon.pre = None
         small_scope(mon, rng, 3 if spec["tier"] == "quick" else 4, spec["shard"], NSHARD)
     return {"evaluations": mon.c["calls"], "digests": sorted(mon.digests), "violations": mon.viol, "counters": mon.c,
             "samples": mon.samples}
@@ -338,7 +412,8 @@ def finalize(m, tier):
                 "at single-output values and subset sums (+-1), fees 0..12345, optionally confirming pending spends in a new "
                 "block between calls; every sequence of 3/4 requests from a 19-request alphabet on a small wallet (exhaustive small "
                 "scope); distinct = distinct (owned outputs, used record, amount, fee) by digest",
-        "floors": [("wallet_reopened", c.get("wallet_reopened", 0), 100), ("calls", c.get("calls", 0), 1000), ("returned", c.get("returned", 0), 300), ("raised", c.get("raised", 0), 200),
+        "floors": [("calls_while_another_thread_hands_out_a_key", c.get("calls_while_another_thread_hands_out_a_key", 0), 200),
+                   ("wallet_reopened", c.get("wallet_reopened", 0), 100), ("calls", c.get("calls", 0), 1000), ("returned", c.get("returned", 0), 300), ("raised", c.get("raised", 0), 200),
                    ("exact_no_change", c.get("exact_no_change", 0), 30), ("with_change", c.get("with_change", 0), 150),
                    ("multi_input", c.get("multi_input", 0), 100),
                    ("calls_after_a_failed_attempt", c.get("calls_after_a_failed_attempt", 0), 100),
